@@ -21,7 +21,28 @@ mod world_exec;
 
 use std::io::{BufRead, Write};
 
+/// C20, run E ("other surroundings"): SV_AMBIENT=1 installs a logger that listens at every level (and throws the
+/// records away) and makes every lazy closure take 9 ms; the transcripts must not change
+pub fn slow_closures() -> bool {
+    static ON: std::sync::OnceLock<bool> = std::sync::OnceLock::new();
+    *ON.get_or_init(|| std::env::var_os("SV_AMBIENT").is_some())
+}
+
+struct NullLogger;
+impl log::Log for NullLogger {
+    fn enabled(&self, _: &log::Metadata) -> bool {
+        true
+    }
+    fn log(&self, _: &log::Record) {}
+    fn flush(&self) {}
+}
+static NULL_LOGGER: NullLogger = NullLogger;
+
 fn main() {
+    if slow_closures() {
+        let _ = log::set_logger(&NULL_LOGGER);
+        log::set_max_level(log::LevelFilter::Trace);
+    }
     let args: Vec<String> = std::env::args().collect();
     if args.len() < 3 {
         eprintln!("usage: specs-harness <domain> <file>");
@@ -31,6 +52,28 @@ fn main() {
     if std::env::var_os("SV_PANIC_MESSAGES").is_none() {
         std::panic::set_hook(Box::new(|_| {}));
     }
+    // a case that never returns (a lock taken twice, a loop that spins) must not stall the check for hours: when no
+    // case has finished for SV_WATCHDOG_SECS seconds (default 180) the process ends with status 98; the checker then
+    // re-runs the cases one at a time and the one that hangs is reported as not having produced its output
+    static DONE: std::sync::atomic::AtomicU64 = std::sync::atomic::AtomicU64::new(0);
+    let limit: u64 = std::env::var("SV_WATCHDOG_SECS").ok().and_then(|s| s.parse().ok()).unwrap_or(180);
+    std::thread::spawn(move || {
+        let (mut last, mut idle) = (0u64, 0u64);
+        loop {
+            std::thread::sleep(std::time::Duration::from_secs(1));
+            let now = DONE.load(std::sync::atomic::Ordering::Relaxed);
+            if now != last {
+                last = now;
+                idle = 0;
+            } else {
+                idle += 1;
+                if idle >= limit {
+                    eprintln!("harness watchdog: no case finished for {} s", limit);
+                    std::process::exit(98);
+                }
+            }
+        }
+    });
     let file = std::fs::File::open(&args[2]).expect("open histories");
     let out = std::io::stdout();
     let mut out = std::io::BufWriter::new(out.lock());
@@ -80,6 +123,7 @@ fn main() {
             .map(|o| o.iter().map(|x| x.to_string()).collect::<Vec<_>>().join(" "))
             .collect();
         writeln!(out, "{}", parts.join(" | ")).unwrap();
+        DONE.fetch_add(1, std::sync::atomic::Ordering::Relaxed);
         if args[1] == "unwind" {
             // a history may abort the process (a second panic while unwinding): keep what was printed
             out.flush().unwrap();
